@@ -97,6 +97,11 @@ TSegRun ==
     /\ IF Ev.first THEN TLCSet(3, Ev.dig) ELSE TLCGet(3) = Ev.dig
     /\ l' = l + 1 /\ UNCHANGED <<vars, pend>>
 
+\* C18: at the end of the run everything retained by the callbacks is intact
+TIntact ==
+    /\ More /\ Ev.k = "x-intact" /\ pend = <<>> /\ Ev.ok
+    /\ l' = l + 1 /\ UNCHANGED <<vars, pend>>
+
 \* a silent server step
 TServer ==
     /\ pend = <<>>
@@ -145,7 +150,7 @@ TFaultedClose ==
     /\ l' = l + 1
     /\ UNCHANGED <<cfg, ssl, mwi, cparams, inq, eof, faulted, stmts, portals, skip, hq, h, pend>>
 
-TNext == TReset \/ TSegRun \/ TPreamble \/ TGlobal \/ TParseParams \/ TApi \/ TSend \/ TEof \/ TLate \/ TServer \/ TMatch \/ TIdle
+TNext == TReset \/ TIntact \/ TSegRun \/ TPreamble \/ TGlobal \/ TParseParams \/ TApi \/ TSend \/ TEof \/ TLate \/ TServer \/ TMatch \/ TIdle
          \/ TFault \/ TFaultedCb \/ TFaultedClose
 
 TSpec == TInit /\ [][TNext]_tvars
